@@ -41,7 +41,7 @@ class ProtocolClient(RunnerClient):
             reason = ev.arg_value(5, "stop_reason")
             ename = name[2] if name is not None and name[0] == "e" and name[1] == "EventName" else None
             rname = reason[2] if reason is not None and reason[0] == "e" else ("none" if reason == ("c", None) or ev.arg(5, "stop_reason") is None else None)
-            self.emit_sites[ev.where()] = f"{ename}/{rname}"
+            self.emit_sites[f"{ev.where()} {ename}/{rname}"] = f"{ename}/{rname}"  # keyed by (site, label): one emit inside a shared helper/closure counts once per event it is asked to emit
             if ename is None or rname is None:
                 return (st, term, deliv, flag1(flags, f"emit with a non-constant event name or stop_reason at {ev.func.qual}"))
             terminal = ename in TERMINAL_NO_REASON or rname != "none"
@@ -403,6 +403,14 @@ def run(rep: Report, prog: Program, tier: str) -> None:
 
     final_failure_state(rep, "R14.7", prog)
     rep.floor("R14.7", 12)
+
+    rep.rule("R14.9", "`the breaker's state` in a breaker event is the state after the transition it reports: the decision returned by CircuitBreaker.allow() carries the state read after any OPEN -> HALF_OPEN step (= the `ret` column of C07 R7.1), and _BreakerDecision hands it on unchanged")
+    from .breaker_table import check_method
+    from .foundations import records_transparent
+
+    check_method(rep, "R14.9", prog, "allow")
+    records_transparent(rep, "R14.9", prog, ["redress.circuit:_BreakerDecision"])
+    rep.floor("R14.9", 12)
 
     rep.rule("R14.6", "breaker events report what just happened: at every emit_breaker_event site the event is the answer of the breaker operation made on that path (allow().event / record_*()) and the state is the admission's own state or the breaker's state read after that operation")
     CBQ = "redress.circuit:CircuitBreaker"
